@@ -500,6 +500,64 @@ class C13(PropBase):
         callee = ",".join("%s=%d" % (n, rng.range(1000, 9999)) for n in ["x19", "x20", "x21", "x22", "x23", "x24", "x25", "x26", "x27", "x28", "fp", "x0"])
         return "Q %s %s" % (callee, ";".join(lines))
 
+    def unloaded_overlap_case(self, rng):
+        """frames that lie in no loaded module but in 2..6 overlapping UNLOADED modules with different names (the context frame
+        of one thread; CFI caller frames of another, whose return addresses point there): the per-frame list of unloaded
+        modules + offsets must come out in one order"""
+        cpu = rng.choice(["amd64", "x86", "arm64"])
+        bits, ips, sps, fps, lrs, pre = CPUS[cpu]
+        w = bits // 8
+        sp = pre + sps[0]
+        base, size = 0x400000, 0x10000
+        ubase = 0x700000
+        toks = ["cpu=" + cpu, "os=" + rng.choice(["win", "win", "linux", "mac"]), "opt=%d" % rng.below(3)]
+        text = ("MODULE Linux %s 000000000000000000000000000000000 live\nFUNC 0 %x 0 live_fn\nSTACK CFI INIT 0 %x .cfa: %s %d + .ra: .cfa %d - ^\n"
+                % (cpu, size, size, sp, 2 * w, w))
+        toks.append("S=" + hx(text.encode()))
+        toks.append("M=%d:%d:%s:0" % (base, size, hx(b"/lib/live.so")))
+        names = []
+        while len(names) < rng.range(2, 6):
+            n = rng.choice(["gone", "old", "plugin", "Zed", "a", "b", "unl", "x"]) + rng.choice(["", "1", "2", "_v2"]) + rng.choice([".dll", ".so"])
+            if n not in names:
+                names.append(n)
+        for n in names:
+            ub = ubase - 0x1000 * rng.below(4)
+            toks.append("U=%d:%d:%s" % (ub, 0x20000 + 0x1000 * rng.below(8), hx(n.encode())))
+            if rng.chance(1, 4):
+                toks.append("U=%d:%d:%s" % (ub + 0x100, 0x20000, hx(n.encode())))     # the same name twice: two offsets
+        for t in range(rng.range(1, 3)):
+            sb = 0x20000 + t * 0x10000
+            words = []
+            for k in range(8):
+                words.append(ubase + 0x100 + rng.below(0x8000) if k % 2 else sb + w * (k + 2))
+            stack = b"".join((x & ((1 << bits) - 1)).to_bytes(w, "little") for x in words)
+            ip = ubase + 0x40 + rng.below(0x4000) if (t == 0 or rng.chance(1, 2)) else base + 0x40 + 4 * rng.below(0x40)
+            regs = ["%s=%d" % (n, ip) for n in ips]
+            regs += ["%s=%d" % (n, sb) for n in sps]
+            regs += ["%s=%d" % (n, sb + 2 * w) for n in fps]
+            regs += ["%s=%d" % (n, base + 0x80) for n in lrs]
+            toks.append("T=%d:%d:%s:%s" % (t + 1, sb, hx(stack), ",".join(regs)))
+        return " ".join(toks)
+
+    def adaptive_case(self, rng):
+        """A: 2..5 adaptive walks (decision trees of depth <= 4 over 2..5 modules: the next module depends on whether the last
+        lookup found symbols) on ONE real Symbolizer with a scripted supplier (0..3 suspensions, all five outcomes), polled in
+        an explicit random schedule; model = C13.Adaptive.arun"""
+        nk = rng.range(2, 5)
+        scripts = [(rng.choice([0, 0, 1, 2, 3]), rng.choice([0, 0, 0, 1, 2, 3, 4])) for _ in range(nk)]
+        def tree(depth):
+            if depth == 0 or rng.chance(1, 5):
+                return ["d%d" % rng.below(100)]
+            return ["k%d" % rng.below(nk)] + tree(depth - 1) + tree(depth - 1)
+        nt = rng.range(2, 5)
+        trees = [tree(rng.range(1, 4)) for _ in range(nt)]
+        sched = [rng.below(nt + 1) for _ in range(rng.below(24))]
+        toks = ["A", str(nk)] + ["%d %d" % sc for sc in scripts] + [str(nt)]
+        for t in trees:
+            toks += t
+        toks += [str(len(sched))] + [str(x) for x in sched]
+        return " ".join(toks)
+
     def deep_threads_case(self, rng, total_min=17000, total_max=24000):
         """2..4 threads in deep recursion (thousands of frames each, tens of thousands together; stacks generated by the
         harness from deep=), each thread in its own module, modules with CFI / without symbols (frame pointers), and a
@@ -568,6 +626,9 @@ class C13(PropBase):
         for _ in range(n_q):
             cases.append(self.cfi_q_case(rng))
         dist["Q_cfi_rule_order_arm64"] = n_q
+        for _ in range(n_q):
+            cases.append(self.adaptive_case(rng))
+        dist["A_adaptive_walks_explicit_schedule"] = n_q
         for _ in range(n_fam):
             cases.append(self.linux_streams_case(rng, keys) + " " + self.sched_suffix(rng))
             cases.append(self.many_threads_case(rng))
@@ -585,6 +646,9 @@ class C13(PropBase):
         for _ in range(n_fam):
             cases.append(self.cfi_redef_case(rng) + " " + self.sched_suffix(rng, 8))
         dist["cfi_redefinition_then_alias"] = n_fam
+        for _ in range(n_fam // 2):
+            cases.append(self.unloaded_overlap_case(rng) + " " + self.sched_suffix(rng, 6))
+        dist["unloaded_modules_overlapping"] = n_fam // 2
         alpha = "abMx  \t019+-ulimted"
         for _ in range(n_r):
             if rng.chance(1, 2):
@@ -665,7 +729,7 @@ class C13(PropBase):
     def oracle(self, case, ans, profile):
         if ans.startswith("P;;"):
             return "panic or hang while processing: " + ans[3:240]
-        if case[:2] in ("R ", "E ", "L ", "Q "):
+        if case[:2] in ("R ", "E ", "L ", "Q ", "A "):
             return None if ans[:1] == case[0] else "unparseable answer " + ans[:80]
         d = dict(t.split("=", 1) for t in ans.split() if "=" in t)
         if "n" not in d:
@@ -689,7 +753,7 @@ class C13(PropBase):
         return msg
 
     def nontrivial(self, case, ans):
-        if case[:2] in ("R ", "E ", "L ", "Q "):
+        if case[:2] in ("R ", "E ", "L ", "Q ", "A "):
             return len(ans) > 2
         return " thr=0 " not in ans and ans.startswith("n=")
 
